@@ -138,6 +138,11 @@ class MichelsonType(Micheline):
         return cls.prim  # type: ignore
 
     @classmethod
+    def type_args(cls) -> List[Type['MichelsonType']]:
+        """Type arguments only (e.g. `sapling_state 8` has a literal argument which is not a type)"""
+        return [arg for arg in cls.args if issubclass(arg, MichelsonType)]
+
+    @classmethod
     def is_comparable(cls):
         if cls.prim in [
             'bls12_381_fr',
@@ -156,7 +161,7 @@ class MichelsonType(Micheline):
             'ticket',
         ]:
             return False
-        return all(map(lambda x: x.is_comparable(), cls.args))
+        return all(map(lambda x: x.is_comparable(), cls.type_args()))
 
     @classmethod
     def is_passable(cls):
@@ -164,7 +169,7 @@ class MichelsonType(Micheline):
             return False
         elif cls.prim == 'lambda':
             return True
-        return all(map(lambda x: x.is_passable(), cls.args))
+        return all(map(lambda x: x.is_passable(), cls.type_args()))
 
     @classmethod
     def is_storable(cls):
@@ -172,7 +177,7 @@ class MichelsonType(Micheline):
             return False
         elif cls.prim == 'lambda':
             return True
-        return all(map(lambda x: x.is_storable(), cls.args))
+        return all(map(lambda x: x.is_storable(), cls.type_args()))
 
     @classmethod
     def is_pushable(cls):
@@ -180,7 +185,7 @@ class MichelsonType(Micheline):
             return False
         elif cls.prim == 'lambda':
             return True
-        return all(map(lambda x: x.is_pushable(), cls.args))
+        return all(map(lambda x: x.is_pushable(), cls.type_args()))
 
     @classmethod
     def is_packable(cls):
@@ -188,7 +193,7 @@ class MichelsonType(Micheline):
             return False
         elif cls.prim == 'lambda':
             return True
-        return all(map(lambda x: x.is_packable(), cls.args))
+        return all(map(lambda x: x.is_packable(), cls.type_args()))
 
     @classmethod
     def is_duplicable(cls):
@@ -196,7 +201,7 @@ class MichelsonType(Micheline):
             return False
         elif cls.prim == 'lambda':
             return True
-        return all(map(lambda x: x.is_duplicable(), cls.args))
+        return all(map(lambda x: x.is_duplicable(), cls.type_args()))
 
     @classmethod
     def is_big_map_friendly(cls):
@@ -204,7 +209,7 @@ class MichelsonType(Micheline):
             return False
         elif cls.prim == 'lambda':
             return True
-        return all(map(lambda x: x.is_big_map_friendly(), cls.args))
+        return all(map(lambda x: x.is_big_map_friendly(), cls.type_args()))
 
     @classmethod
     def unpack(cls, data: bytes) -> 'MichelsonType':
